@@ -7,6 +7,22 @@ HERE = os.path.dirname(os.path.dirname(os.path.abspath(__file__)))
 
 # property -> (technique, level text, level note, design ref)
 CLAIMED = {
+    "C02": (
+        "symbolic normalisation of the integer encoding formulas (both directions) against the "
+        "ODX table, normal-form equality of padding / byte-length / byte-reversal formulas between "
+        "encoder, decoder and the static-length function, dominance check of mask positioning, "
+        "who-may-write scan for the PDU buffers, decision-table check of the string encodings",
+        "Decides the closed-form part of bit exactness: two's/one's complement and sign-magnitude "
+        "formulas and the sign test, the BCD digit loops, that padding, consumed bytes and byte "
+        "reversal are the same expression wherever they occur, that the used-bit mask is shifted "
+        "before data and mask are reversed together, that only EncodeState writes the PDU and "
+        "accumulates used bits with OR while warning exactly on intersecting bits, that both "
+        "backends are bound identically and only pack/unpack_from are used, and the string codec "
+        "table. A symmetric slip (same wrong formula on both sides) is still caught because each "
+        "side is compared with the ODX formula, not only with its sibling.",
+        "Not decided: agreement with an independent interpreter on concrete PDUs, Python codec "
+        "behaviour, the C extension's semantics. Trusted: exprnorm's algebra (sa/exprnorm.py).",
+        "DESIGN.md section 3, C02"),
     "C01": (
         "sibling analysis of every encode/decode pair: save/move/restore pairing by CFG "
         "must-pass-through queries, role-normalised comparison of all cursor positioning writes "
